@@ -129,8 +129,8 @@ def jointRun (P : Power.Params) (env : Env) (m : Nat) :
 
 /-- **claim_eq_sum.** If miner `m`'s claim equals the partition's `active_power()` and every delta
     is forwarded (each `UpdateClaimedPower` accepted), then after any sequence of the twelve
-    partition methods the claim again equals `active_power()`; with `delta_telescopes_recomputed_
-    partial` / `memo_eq_recompute_partial` this is the power recomputed from the sectors.  That
+    partition methods the claim again equals `active_power()`; with `delta_telescopes_recomputed`
+    / C04 `memo_eq_recompute` this is the power recomputed from the sectors.  That
     every delta IS forwarded is a fact about the lib.rs glue, checked by the actor-level run. -/
 theorem claim_eq_sum (P : Power.Params) (env : Env) (m : Nat) (ops : List Op) :
     ∀ (p p' : Partition) (s s' : Power.State),
